@@ -54,6 +54,14 @@ var handlerWriter = map[string]string{
 }
 
 func runC01(c *core.Ctx) {
+	defer func() {
+		c.Share(map[string]string{"R4.11": "R1.15"}, runC04) // flags come back as last written
+		// necessary conditions shared with other properties (same obligations, this property's numbering)
+		c.Share(map[string]string{"R9.3": "R1.12"}, runC09) // a touch/set whose TTL lands in the wrong field changes when the map answers hit or miss
+		c.Share(map[string]string{"R8.5": "R1.13"}, runC08) // a reply left in the buffer is a reply the client does not receive
+		c.Rule("R1.14", "a value handed to the consumer of a multi-key get lives in memory obtained during that key's iteration (every backend handler): the bytes of one key are not overwritten by the next", 2)
+		checkFreshValueBuffers(c, "R1.14", "handlers/memcached/std", "handlers/memcached/chunked", "handlers/memcached/batched", "handlers/memcached/cluster")
+	}()
 	c.Rule("R1.1", "the connection loop dispatches each request type to the orchestrator method of the same command; every request type has a row", 15)
 	c.Rule("R1.2", "each in-scope orchestrator method calls exactly the handler methods of the orchestration contract, and L1 is changed only after the L2 operation of the same command succeeded", 45)
 	c.Rule("R1.3", "a handler error that is not one of the contract's benign L1 statuses is returned to the loop: from its failure edge no success reply and no nil return is reachable", 40)
